@@ -465,6 +465,11 @@ def c03_dumper_checks(repo: Repo, tier: str, res: CheckResult, seed: int, prop: 
             if got != node["t"]:
                 res.add(_gen_finding(prop, "TV.dumper-node", prog, 0, f"node kind {got} expected {node['t']}",
                                      f"crown node {list(path)} is a {node['t']} but the program builds {got}"))
+        for path, cond in S.node_conds.items():
+            if path not in sieves:
+                res.add(_gen_finding(prop, "TV.sieve", prog, 0, "conditional container node",
+                                     f"the nested node at {list(path)} has no sieve in the crown but is written only when `{cond}`: "
+                                     "the container (and every field below it) disappears from the output"))
         # fields
         for fid, path in oracle.items():
             disagreements += 1
@@ -504,6 +509,14 @@ def c03_dumper_checks(repo: Repo, tier: str, res: CheckResult, seed: int, prop: 
                                          f"key {path[-1]!r} has no sieve but is written only when `{ent[2]}`"))
             else:
                 disagreements += 1
+                if kind != "custom" and ent[2] is not None and src is not None and src[3] and prop == "C03":
+                    # the documented rule: "values that are equal to default will be stripped" -- the VALUE of the field
+                    res.add(_gen_finding(prop, "TV.sieve-compares-dumped-value", prog, ent[3],
+                                         "default compared with the output of the field dumper",
+                                         f"key {path[-1]!r}: the omit_default condition `{ent[2]}` tests the value AFTER the field's "
+                                         f"dumper was applied against the field's default: a field whose dumper is not the identity "
+                                         f"(Decimal -> str, date -> str, nested model -> dict, Enum -> value) is never omitted although "
+                                         f"it equals its default"))
                 if ent[2] is None:
                     res.add(_gen_finding(prop, "TV.sieve", prog, ent[3], "unconditional sieved key",
                                          f"key {path[-1]!r} is sieved ({kind}) but written unconditionally"))
@@ -1362,6 +1375,12 @@ def c13_checks(repo: Repo, tier: str, res: CheckResult, seed: int) -> None:
             res.add(Finding("C13", "PLAN.generation-fails", BG, "BuiltinBroachingCodeGenerator.produce_code",
                             _plan_text(r["plan"])[:120], f"code generation failed for a valid plan: {r['error']}", 0))
             continue
+        if r.get("user_functions_run"):
+            res.add(Finding("C13", "PLAN.user-function-run-while-generating", BG, "BuiltinBroachingCodeGenerator.produce_code",
+                            "linked user function called by the code generator",
+                            f"generating the code of plan `{_plan_text(r['plan'])[:80]}` CALLED the linked user function(s) "
+                            f"{sorted(set(r['user_functions_run']))}: a factory given to link_constant / a zero-argument "
+                            "link_function has to run once per conversion, not once when the converter is built", 0))
         try:
             tree = ast.parse(r["source"])
         except SyntaxError as ex:
@@ -1886,6 +1905,10 @@ def c03_layout_checks(repo: Repo, tier: str, res: CheckResult, seed: int) -> Non
                 if set(placeholders) != want_gaps:
                     bad("LAYOUT.list-gaps", f"placeholders at {sorted(map(list, placeholders))}", "list layouts must fill exactly "
                         f"the gaps {sorted(map(list, want_gaps))} with None placeholders")
+                if S.node_conds:
+                    bad("LAYOUT.omit-default", "conditional container node",
+                        f"omit_default makes fields conditional, never the containers that hold them; the program writes the "
+                        f"node(s) {sorted(map(list, S.node_conds))} only when `{next(iter(S.node_conds.values()))}`")
                 got_sieved = {ent[1] for ent in S.tree.values() if ent[0] in ("field", "opt-field") and ent[2] is not None}
                 if got_sieved != sieved:
                     bad("LAYOUT.omit-default", f"conditional fields {sorted(got_sieved)}", f"omit_default must make exactly the "
@@ -2223,8 +2246,12 @@ def c16_checks(repo: Repo, tier: str, res: CheckResult, seed: int) -> None:
                 n_fields += 1
                 b = got["bindings"].get(f"{what}_{f}")
                 flat = _g_flat(b) if b is not None else []
-                got_leaves = sorted(x for x in flat if x in known)
-                exp_leaves = sorted(_g_leaves(texpr, table))
+                # pre-order of the closure tree (cells in free-variable order: key_* before value_*), NOT sorted: the position of
+                # an argument matters (Dict[K, List[V]] vs Dict[V, List[K]])
+                got_leaves = [x for x in flat if x in known]
+                exp_leaves = _g_leaves(texpr, table)
+                if "Union[" in texpr:      # the cases of a union are a set (normalisation may reorder them)
+                    got_leaves, exp_leaves = sorted(got_leaves), sorted(exp_leaves)
                 if what == "dumper":
                     got_leaves = [x for x in got_leaves if x != "<lambda>"]
                 ok = got_leaves == exp_leaves
